@@ -565,4 +565,199 @@ theorem Merge_eq (t t2 : Total) : @TaxTotalsSrc.Total_Merge faithfulOps (some t)
   rw [hc']
   rfl
 
+/-! ## `round`, `calculateBaseCategoryTotal`, `calculateFinalSum`, `rateTotalFor`: what they compute, over ANY reading of the primitives -/
+
+/-- `Total.round` on one rate group, over any reading of the primitives -/
+def roundRateG [NumOps] (e : Nat) (rt : RateTotal) : RateTotal :=
+  { rt with
+    amount := NumOps.rescale rt.amount e
+    base := NumOps.rescale rt.base e
+    surcharge := rt.surcharge.map fun s => { s with amount := NumOps.rescale s.amount e } }
+
+/-- `Total.round` on one category -/
+def roundCatG [NumOps] (e : Nat) (ct : CategoryTotal) : CategoryTotal :=
+  { ct with
+    rates := ct.rates.map (roundRateG e)
+    amountP := ct.amount
+    amount := NumOps.rescale ct.amount e
+    surcharge := ct.surcharge.map (NumOps.rescale · e) }
+
+theorem round_eq [NumOps] (t : Total) (zero : Amount) :
+    TaxTotalsSrc.Total_round t zero =
+      ((), ⟨t.categories.map (roundCatG zero.exp), NumOps.rescale t.sum zero.exp, t.sum⟩) := by
+  unfold TaxTotalsSrc.Total_round
+  simp only [forIn_list_id, pure_bind]
+  simp only [Id.run, id_pure, List.set_set, ite_yield_id, forList_fold]
+  rw [foldl_cursor_via (fun cats => (⟨cats, t.sum, t.sumP⟩ : Total)) _ (roundCatG zero.exp) ?h t.categories]
+  case h =>
+    intro acc x i
+    dsimp only
+    generalize hR : List.foldl _ (_, x) x.rates.zipIdx = R
+    have h23 : R.2 = { x with rates := x.rates.map (roundRateG zero.exp) } ∧
+        ∀ d, (⟨R.1.categories.set i d, R.1.sum, R.1.sumP⟩ : Total) = ⟨acc.set i d, t.sum, t.sumP⟩ := by
+      rw [← hR]
+      exact (foldl_inner_cursor (N := Total) (C := CategoryTotal)
+        (fun n c => ⟨n.categories.set i c, n.sum, n.sumP⟩) (by intro n a b; simp [List.set_set])
+        (fun c p => { c with rates := c.rates.set p.2 (roundRateG zero.exp p.1) }) _
+        (by
+          intro n c p
+          rcases p with ⟨⟨k, cn, e, b, pc, su, a⟩, j⟩
+          cases su <;> simp [roundRateG])
+        (fun rs' => { x with rates := rs' }) (roundRateG zero.exp) (by intro acc x j; rfl) x.rates ⟨acc, t.sum, t.sumP⟩).2
+    simp only [h23.1, h23.2]
+    rcases x with ⟨cd, ret, rs, am, su, ap⟩
+    cases su <;> simp [roundCatG]
+
+/-- the rate part of `calculateBaseCategoryTotal`, over any reading of the primitives -/
+def rateAmountsG [NumOps] (zero : Amount) (rt : RateTotal) : RateTotal :=
+  match rt.percent with
+  | none => { rt with amount := zero }
+  | some p =>
+    { rt with
+      amount := NumOps.pctOf p rt.base
+      surcharge := rt.surcharge.map fun s => { s with amount := NumOps.pctOf s.percent rt.base } }
+
+/-- what one rate group adds to (category amount, category surcharge) in `calculateBaseCategoryTotal` -/
+def catAccG [NumOps] (zero : Amount) (rr : String) (s : Amount × Option Amount) (rt : RateTotal) : Amount × Option Amount :=
+  match rt.percent with
+  | none => s
+  | some p =>
+    (NumOps.add (TaxTotalsSrc.matchRoundingPrecision rr s.1 (NumOps.pctOf p rt.base)) (NumOps.pctOf p rt.base),
+     match rt.surcharge with
+     | none => s.2
+     | some su =>
+       some (NumOps.add (TaxTotalsSrc.matchRoundingPrecision rr (s.2.getD zero) (NumOps.pctOf su.percent rt.base))
+         (NumOps.pctOf su.percent rt.base)))
+
+/-- `calculateBaseCategoryTotal` on a category, over any reading of the primitives -/
+def calcCatG [NumOps] (zero : Amount) (rr : String) (ct : CategoryTotal) : CategoryTotal :=
+  { ct with
+    rates := ct.rates.map (rateAmountsG zero)
+    amount := (ct.rates.foldl (catAccG zero rr) (zero, none)).1
+    surcharge := (ct.rates.foldl (catAccG zero rr) (zero, none)).2 }
+
+theorem calcBase_eq [NumOps] (t : Total) (ct : CategoryTotal) (zero : Amount) (rr : String) :
+    TaxTotalsSrc.Total_calculateBaseCategoryTotal t ct zero rr = ((), calcCatG zero rr ct) := by
+  unfold TaxTotalsSrc.Total_calculateBaseCategoryTotal
+  simp only [forIn_list_id, pure_bind]
+  simp only [Id.run, id_pure, List.set_set, ite_yield_id, forList_fold]
+  rw [foldl_cursor_acc' (σ := Amount × Option Amount)
+    (fun rs s => (⟨ct.code, ct.retained, rs, s.1, s.2, ct.amountP⟩ : CategoryTotal)) _
+    (fun _ => rateAmountsG zero) (catAccG zero rr) ?h ct.rates (zero, none)]
+  case h =>
+    intro acc s x i
+    rcases x with ⟨k, cn, e, b, pc, su, a⟩
+    rcases s with ⟨s1, s2⟩
+    cases pc <;> cases su <;> cases s2 <;> simp [rateAmountsG, catAccG]
+  rw [mapAcc_const]; rfl
+
+/-- what one (calculated) category adds to the sum in `calculateFinalSum` -/
+def sumAccG [NumOps] (rr : String) (s : Amount) (ct : CategoryTotal) : Amount :=
+  if ct.retained = true then
+    match ct.surcharge with
+    | some x => NumOps.sub (NumOps.sub (TaxTotalsSrc.matchRoundingPrecision rr s ct.amount) ct.amount) x
+    | none => NumOps.sub (TaxTotalsSrc.matchRoundingPrecision rr s ct.amount) ct.amount
+  else
+    match ct.surcharge with
+    | some x => NumOps.add (NumOps.add (TaxTotalsSrc.matchRoundingPrecision rr s ct.amount) ct.amount) x
+    | none => NumOps.add (TaxTotalsSrc.matchRoundingPrecision rr s ct.amount) ct.amount
+
+theorem calcFinalSum_eq [NumOps] (t : Total) (zero : Amount) (rr : String) :
+    TaxTotalsSrc.Total_calculateFinalSum t zero rr =
+      ((), ⟨t.categories.map (calcCatG zero rr), (t.categories.map (calcCatG zero rr)).foldl (sumAccG rr) zero, t.sumP⟩) := by
+  unfold TaxTotalsSrc.Total_calculateFinalSum
+  simp only [forIn_list_id, pure_bind]
+  simp only [Id.run, id_pure, ite_yield_id, forList_fold, calcBase_eq]
+  rw [foldl_cursor_acc' (σ := Amount)
+    (fun cats s => (⟨cats, s, t.sumP⟩ : Total)) _
+    (fun _ => calcCatG zero rr) (fun s ct => sumAccG rr s (calcCatG zero rr ct)) ?h t.categories zero]
+  case h =>
+    intro acc s x i
+    generalize calcCatG zero rr x = y
+    rcases y with ⟨cd, ret, rs, am, su, ap⟩
+    cases ret <;> cases su <;> simp [sumAccG]
+  rw [mapAcc_const, List.foldl_map]
+
+/-- the row `newRateTotal` makes -/
+def newRT (c : TaxTotals.Combo) (zero : Amount) : RateTotal :=
+  { key := c.rate, country := c.country, ext := c.ext, base := zero, percent := c.percent,
+    surcharge := c.surcharge.map (fun s => { percent := s, amount := zero }), amount := zero }
+
+/-- `rateTotalFor` inside one category: the rates afterwards and the row the returned pointer aliases -/
+def locRates [NumOps] (c : TaxTotals.Combo) (zero : Amount) : List RateTotal → List RateTotal × RateTotal
+  | [] => ([newRT c zero], newRT c zero)
+  | rt :: rts =>
+    if TaxTotalsSrc.RateTotal_matches rt c = true then (rt :: rts, rt)
+    else ((rt :: (locRates c zero rts).1), (locRates c zero rts).2)
+
+/-- `rateTotalFor`: the categories afterwards and the row the returned pointer aliases -/
+def locCats [NumOps] (c : TaxTotals.Combo) (zero : Amount) : List CategoryTotal → List CategoryTotal × RateTotal
+  | [] => ([{ code := c.category, retained := c.retained, rates := [newRT c zero], amount := zero, surcharge := none,
+              amountP := zero }], newRT c zero)
+  | ct :: cts =>
+    if ct.code = c.category then ({ ct with rates := (locRates c zero ct.rates).1 } :: cts, (locRates c zero ct.rates).2)
+    else (ct :: (locCats c zero cts).1, (locCats c zero cts).2)
+
+theorem locRates_none [NumOps] (c : TaxTotals.Combo) (zero : Amount) (l : List RateTotal)
+    (h : ∀ x ∈ l, ¬ (TaxTotalsSrc.RateTotal_matches x c = true)) :
+    locRates c zero l = (l ++ [newRT c zero], newRT c zero) := by
+  induction l with
+  | nil => rfl
+  | cons a l ih =>
+    have ha : ¬ (TaxTotalsSrc.RateTotal_matches a c = true) := h a (by simp)
+    simp [locRates, ha, ih (fun x hx => h x (by simp [hx]))]
+
+theorem locRates_found [NumOps] (c : TaxTotals.Combo) (zero : Amount) (pre post : List RateTotal) (m : RateTotal)
+    (h : ∀ x ∈ pre, ¬ (TaxTotalsSrc.RateTotal_matches x c = true)) (hm : TaxTotalsSrc.RateTotal_matches m c = true) :
+    locRates c zero (pre ++ m :: post) = (pre ++ m :: post, m) := by
+  induction pre with
+  | nil => simp [locRates, hm]
+  | cons a l ih =>
+    have ha : ¬ (TaxTotalsSrc.RateTotal_matches a c = true) := h a (by simp)
+    simp [locRates, ha, ih (fun x hx => h x (by simp [hx]))]
+
+theorem locCats_none [NumOps] (c : TaxTotals.Combo) (zero : Amount) (l : List CategoryTotal)
+    (h : ∀ x ∈ l, ¬ (x.code = c.category)) :
+    locCats c zero l = (l ++ [⟨c.category, c.retained, [newRT c zero], zero, none, zero⟩], newRT c zero) := by
+  induction l with
+  | nil => rfl
+  | cons a l ih =>
+    have ha : ¬ (a.code = c.category) := h a (by simp)
+    simp [locCats, ha, ih (fun x hx => h x (by simp [hx]))]
+
+theorem locCats_found [NumOps] (c : TaxTotals.Combo) (zero : Amount) (pre post : List CategoryTotal) (m : CategoryTotal)
+    (h : ∀ x ∈ pre, ¬ (x.code = c.category)) (hm : m.code = c.category) :
+    locCats c zero (pre ++ m :: post) =
+      (pre ++ { m with rates := (locRates c zero m.rates).1 } :: post, (locRates c zero m.rates).2) := by
+  induction pre with
+  | nil => simp [locCats, hm]
+  | cons a l ih =>
+    have ha : ¬ (a.code = c.category) := h a (by simp)
+    simp [locCats, ha, ih (fun x hx => h x (by simp [hx]))]
+
+theorem rateTotalFor_eq [NumOps] (t : Total) (c : TaxTotals.Combo) (zero : Amount) :
+    TaxTotalsSrc.Total_rateTotalFor t c zero =
+      (some (locCats c zero t.categories).2, ⟨(locCats c zero t.categories).1, t.sum, t.sumP⟩) := by
+  unfold TaxTotalsSrc.Total_rateTotalFor
+  simp only [forIn_list_id, pure_bind]
+  simp only [Id.run, id_pure, newRateTotal_eq, newCategoryTotal_eq, Option.get!_some]
+  rcases forList_search (fun (m : CategoryTotal) => m.code = c.category) t.categories 0 with
+    ⟨hno, hs⟩ | ⟨pre, m, post, hl, hpre, hm, hs⟩
+  · simp only [hs, Option.isNone_none, if_true, List.zipIdx_nil, forList]
+    rw [locCats_none _ _ _ hno]
+    simp [newRT]
+  · simp only [hs, Option.isNone_some, Bool.false_eq_true, if_false, Option.get!_some, Nat.zero_add]
+    rw [hl, locCats_found _ _ _ _ _ hpre hm]
+    rcases forList_search (fun (r : RateTotal) => TaxTotalsSrc.RateTotal_matches r c = true) m.rates 0 with
+      ⟨rno, rs⟩ | ⟨rpre, rm, rpost, rl, rpreh, rmh, rs⟩
+    · simp only [rs, Option.isNone_none, if_true]
+      rw [locRates_none _ _ _ rno]
+      simp [newRT]
+    · simp only [rs, Option.isNone_some, Bool.false_eq_true, if_false]
+      rw [rl, locRates_found _ _ _ _ _ rpreh rmh]
+      simp only [← rl]
+      rcases t with ⟨cats, s, sp⟩
+      simp only at hl
+      rw [hl]
+
 end GoblVerif.Proofs.TaxTotalsSrc
